@@ -88,12 +88,12 @@ func (w *c12World) line(c *Ctx, in string) {
 		h.Start()
 		ok := false
 		for i := 0; i < 200; i++ { // wait for the socket
-			if cn, err := net.DialTimeout("tcp", fmt.Sprintf("127.0.0.1:%d", w.port), 50*time.Millisecond); err == nil {
+			if cn, err := net.DialTimeout("tcp", fmt.Sprintf("127.0.0.1:%d", w.port), ms(50)); err == nil {
 				cn.Close()
 				ok = true
 				break
 			}
-			time.Sleep(5 * time.Millisecond)
+			time.Sleep(ms(5))
 		}
 		if !ok {
 			c.Emit("%s => NOLISTEN", in)
